@@ -40,6 +40,8 @@ def build(i, check):
     oa, ob = rng.choice(OUTCOMES), rng.choice(OUTCOMES)
     if kind == "wait-optional" and rng.random() < 0.25:
         oa = "late-enabled"
+    elif kind == "wait-optional" and rng.random() < 0.2:
+        oa = "deployfail"
     if kind == "wait-optional-in-oneof":
         # the interesting runs are those in which the option's hard source is there long before the optional one
         oa, ob = rng.choice(["success", "success", "success", "error", "crash"]), rng.choice(["success", "success", "success", "error"])
@@ -71,6 +73,9 @@ def build(i, check):
     if kind == "wait-optional":
         t = Opt(rng.choice([Ref("A", "outputs", "success", "tag"), Ref("A", "outputs", "success", "tag"), Ref("A", "disabled", "output", "message"), Ref("A", "enabling", "resolved", "enabled"),
                             Ref("A", "crashed", "error", "output"), Ref("A", "deploy_failed", "error", "error"), Ref("A", "outputs", "error", "reason"), Ref("A", "outputs"), Ref("A", "outputs", "success")]), True)
+        if oa == "deployfail" and rng.random() < 0.6:
+            # a failed deployment decides all later stages of the step at once, also the enabling ones
+            t = Opt(rng.choice([Ref("A", "disabled", "output", "message"), Ref("A", "enabling", "resolved", "enabled"), Ref("A", "enabling", "resolved"), Ref("A", "starting", "started")]), True)
         if oa == "late-enabled" and rng.random() < 0.6:
             # the step gets enabled late: its disabled output can then no longer occur, and a member waiting for it is absent
             t = Opt(rng.choice([Ref("A", "disabled", "output", "message"), Ref("A", "disabled", "output")]), True)
